@@ -31,7 +31,8 @@ func (w *World) timeOf(br blob.Ref) (time.Time, bool) {
 		return m.Created, true
 	}
 	if w.Names[br] == "pD" {
-		return world.T0, true
+		// the delete claim (dated T(50)) targets pD and therefore counts as its latest claim
+		return world.T(50), true
 	}
 	return time.Time{}, false
 }
